@@ -47,7 +47,7 @@ func instancesFor(prop, tier string) []*Instance {
 			return
 		}
 		if in.Timeout == 0 {
-			in.Timeout = 100 * time.Second
+			in.Timeout = 240 * time.Second
 			if thorough {
 				in.Timeout = 40 * time.Minute
 			}
@@ -58,8 +58,7 @@ func instancesFor(prop, tier string) []*Instance {
 	case "C01":
 		c01Instances(add, thorough, 0)
 	case "C09":
-		c01Instances(add, thorough, 1)
-		c02Instances(add, thorough, 1)
+		c09Instances(add, thorough)
 	case "C02":
 		c02Instances(add, thorough, 0)
 	case "C03":
@@ -96,6 +95,9 @@ func c01Instances(add func(*Instance), thorough bool, inv int) {
 						}
 					}
 					heavy := a.k == kR && b.k == kR && (a.s%10 >= 2 && b.s%10 >= 2) && gi == 0
+					if gi == 0 && a.k == kR && b.k == kR && a.s != b.s && (op == 5 || op == 9) {
+						heavy = true
+					}
 					if gi == 1 && op == 7 && a.k == kR && b.k == kA {
 						heavy = true
 					}
@@ -128,7 +130,7 @@ func c01Instances(add func(*Instance), thorough bool, inv int) {
 			a0, a1, b0, b1 = 21, 224, 21, 21 // xor/andNot convert to bitmaps: anchored shapes
 			s0, s1 = 22, 224
 		}
-		if op == 3 {
+		if op == 3 || (op == 2 && !thorough) {
 			a1 = 21
 		}
 		for form := 0; form <= 1; form++ {
@@ -357,4 +359,19 @@ func c02Instances(add func(*Instance), thorough bool, inv int) {
 			add(&Instance{Func: "VerifC02Step", Params: pp})
 		}
 	}
+}
+
+// C09: invariant-only mode (inv=1) of the C01/C02 harness families, with pre-states satisfying the FULL invariant
+// (eff=1: generated run chunks are efficient, as Validate requires), plus the I => Validate()==nil bridge.
+func c09Instances(add func(*Instance), thorough bool) {
+	wrap := func(in *Instance) {
+		in.Params = with(in.Params, "eff", 1, "L", 7)
+		pr := in.Params
+		if in.Func == "VerifC01ContainerBinop" && pr["ka"] == kR && pr["kb"] == kR && pr["sa"] != pr["sb"] && (pr["op"] == 5 || pr["op"] == 9) {
+			in.Tier = 1 // in-place run unions with lengths up to 8: thousands of paths
+		}
+		add(in)
+	}
+	c01Instances(wrap, thorough, 1)
+	c02Instances(wrap, thorough, 1)
 }
